@@ -4,7 +4,7 @@ obligation tag of that property (a unit is verified for a property exactly when 
 import json, re, os, glob
 here = os.path.dirname(os.path.dirname(os.path.abspath(__file__)))
 P = json.load(open(os.path.join(here, 'contracts', 'props.json')))
-order = ['graph', 'store', 'ctx', 'bu', 'queue', 'checkers']
+order = ['graph', 'store', 'tracking', 'dep', 'ctx', 'bu', 'queue', 'checkers', 'fs', 'map']
 tags = {}
 for vc in glob.glob(os.path.join(here, 'contracts', '*.vc')):
     u = os.path.basename(vc)[:-3]
